@@ -8,7 +8,7 @@ mkdir -p "$S"
 REPO="${DSIM_REPO:-/repo}"
 rsync -a --delete --exclude .git "$REPO/" "$S/repo/"
 mkdir -p "$S/repo/zsimrt"
-cp $V/sim/zsimrt/*.go "$S/repo/zsimrt/"
+cp $V/sim/zsimrt/*.go $V/sim/zsimrt/*.s "$S/repo/zsimrt/"
 if [ ! -x $V/bin/instrument ] || [ $V/sim/instrument/main.go -nt $V/bin/instrument ]; then
   (cd $V/sim/instrument && go build -o $V/bin/instrument .)
 fi
